@@ -631,6 +631,12 @@ def band_search(ctx, L: Lits):
             if not (isinstance(s.value, ast.Name) and s.value.id == key and have == want):
                 ok_band = False
                 why = f"returns `{unparse(s.value)}` under {sorted(have)}"
+            # the value compared with the band edges is the measured CBR itself, not something derived from it first
+            rebound = [d for d in fl.reaching(cbr, st) if d.kind != "param"]
+            if rebound:
+                ok_band = False
+                why = (f"`{cbr}` is rebound before the comparison (`{unparse(rebound[0].value)[:50] if rebound[0].value is not None else '?'}`): "
+                       "a rounded / scaled CBR falls into the neighbouring band next to an edge")
         else:
             r = P.resolve_expr_entity(ts.module, s.value) if s.value is not None else None
             order = ts.module.consts.get("_STATE_ORDER")
